@@ -17,6 +17,8 @@ pub struct Universe {
     pub lines: Vec<u64>,
     /// short list used for unknown classes/methods
     pub few_lines: Vec<u64>,
+    /// file values of the queried frame beyond absent / "Q.java" (asked on a reduced line set)
+    pub extra_files: Vec<String>,
 }
 
 pub const EXTREME_LINES: [u64; 4] = [(1 << 32) - 2, (1 << 32) - 1, 1 << 32, u64::MAX];
@@ -109,6 +111,13 @@ impl Universe {
         let mut ps: BTreeSet<String> = params.clone();
         ps.insert(String::new());
         ps.insert("unknown.Param".into());
+        // argument strings never contain parentheses: a parenthesised query must match nothing
+        ps.insert("()".into());
+        for p in params.iter().take(6) {
+            ps.insert(format!("({p})"));
+            ps.insert(format!("{p})"));
+            ps.insert(format!(" {p}"));
+        }
         if near {
             let snapshot: Vec<String> = params.iter().take(8).cloned().collect();
             for p in snapshot {
@@ -144,6 +153,7 @@ impl Universe {
             params: ps.into_iter().collect(),
             lines: lines.into_iter().collect(),
             few_lines: vec![0, 1, 7],
+            extra_files: vec![crate::gen::mapping::SYNTHETIC.to_string(), String::new(), "<unknown>".to_string(), "Foo.kt".to_string()],
         }
     }
 
